@@ -245,9 +245,34 @@ func c09SeqStorm(client bool, n, total, flen int) c09DFeedCase {
 	return c
 }
 
+// c09Greedy: one handshake header whose fragment_length (flen) disagrees with the announced message
+// length (total) and with the bytes present, followed by n handshake records of 1000 filler bytes: the
+// endpoint must refuse the header, not collect what follows into its handshake buffer.
+func c09Greedy(client bool, total, off, flen, present, n int) c09DFeedCase {
+	typ := byte(1)
+	if client {
+		typ = 2
+	}
+	c := c09DFeedCase{Client: client}
+	c.Dgrams = append(c.Dgrams, c09Rec(22, 0, 0, c09Frag(typ, total, 0, off, flen, make([]byte, present))))
+	for i := 1; i <= n; i++ {
+		c.Dgrams = append(c.Dgrams, c09Rec(22, 0, uint64(i), make([]byte, 1000)))
+	}
+	return c
+}
+
 // c09StormCases: the enumerated storms (also run under C17: bounded pending fragment state).
 func c09StormCases() []c09DFeedCase {
 	var out []c09DFeedCase
+	for _, client := range []bool{false, true} {
+		for _, total := range []int{39, 1000} {
+			for _, off := range []int{0, 5} {
+				for _, flen := range []int{total + 5, 300000, 1<<24 - 1} {
+					out = append(out, c09Greedy(client, total, off, flen, 20, 400))
+				}
+			}
+		}
+	}
 	for _, client := range []bool{false, true} {
 		for _, n := range []int{255, 256, 257, 400, 2000} {
 			for _, flen := range []int{1, 100} {
@@ -259,7 +284,7 @@ func c09StormCases() []c09DFeedCase {
 }
 
 func TestVF_C17_PendingBound(t *testing.T) {
-	rec := vfRec("C17", "C17d-pending-bound", "storms of 255..2000 datagrams, each the first fragment of a different message_seq of a never-completing 60000-byte message, fed to a fresh client and server; oracle: at most 257 reassembly buffers pending, no panic, no spin; distinct = the case")
+	rec := vfRec("C17", "C17d-pending-bound", "storms of 255..2000 datagrams, each the first fragment of a different message_seq of a never-completing 60000-byte message, and headers whose fragment_length exceeds the announced message length (by 5 bytes, 300000, 2^24-1; offset 0 and 5) followed by 400 records of filler, fed to a fresh client and server; oracle: at most 257 reassembly buffers pending, handshake buffer within a fixed bound, no panic, no spin; distinct = the case")
 	for i, c := range c09StormCases() {
 		if !vfMine(i) {
 			continue
@@ -272,11 +297,11 @@ func TestVF_C17_PendingBound(t *testing.T) {
 			return map[string]interface{}{"client": c.Client, "datagrams": len(c.Dgrams), "datagram_len": len(c.Dgrams[0])}
 		}, depth)
 	}
-	rec.SetExhaustive(true, "20 enumerated storms")
+	rec.SetExhaustive(true, fmt.Sprintf("%d enumerated storms", len(c09StormCases())))
 }
 
 func TestVF_C09_Feed(t *testing.T) {
-	rec := vfRec("C09", "C09-feed", "storms of one first fragment per message_seq (255..2000 datagrams); generated datagram lists (raw; storms of handshake fragments with hostile total/offset/length/message_seq fields incl. lying lengths; foreign-address datagrams interleaved with a recorded conversation; mutations and duplications of a recorded conversation) fed to a fresh client or server that runs Handshake and then Read to exhaustion; oracle: no panic, no reading of an exhausted transport more than 200 times, pending reassembly buffers <= 257, handshake buffer within a fixed bound; non-trivial = at least one datagram with a complete record header; distinct = hash of the input")
+	rec := vfRec("C09", "C09-feed", "storms of one first fragment per message_seq (255..2000 datagrams); headers whose fragment_length exceeds the announced length followed by 400 records of filler; generated datagram lists (raw; storms of handshake fragments with hostile total/offset/length/message_seq fields incl. lying lengths; foreign-address datagrams interleaved with a recorded conversation; mutations and duplications of a recorded conversation) fed to a fresh client or server that runs Handshake and then Read to exhaustion; oracle: no panic, no reading of an exhausted transport more than 200 times, pending reassembly buffers <= 257, handshake buffer within a fixed bound; non-trivial = at least one datagram with a complete record header; distinct = hash of the input")
 	for i, c := range c09StormCases() {
 		if !vfMine(i) {
 			continue
